@@ -53,12 +53,9 @@ _D = {"MAININS": '{"init"}', "MAXSTMTS": 2, "STMTS": '{"def"}', "DECOS": '{"none
       "IMPORTS": '{"OK"}', "ASNAMES": '{"-"}'}
 DEFECTS = {
     "annonly": ("NoAnnOnly", dict(_D, STMTS='{"def", "annonly"}')),
-    "classmethod-cls": ("NoClassmethodCls", dict(_D, STMTS='{"def", "class"}', DECOS='{"none", "static", "class"}')),
     "import-self": ("NoImportSelf", dict(_D, MAININS='{"init", "sub"}', STMTS='{"import", "from"}')),
     "base-rebound": ("NoBaseRebound", dict(_D, MAXSTMTS=3, STMTS='{"class", "assign", "from"}', ASNAMES='{"-", "a"}')),
     "ref": ("NoRef", dict(_D, STMTS='{"def", "assign", "ref"}')),
-    "from-dot-in-class": ("NoFromDotInClass", dict(_D, MAININS='{"init", "sub"}', STMTS='{"class", "from"}', IMPORTS='{"OK", "other"}')),
-    "base-builtin-module": ("NoBaseBuiltinModule", dict(_D, STMTS='{"class", "from"}', IMPORTS='{"OK", "ext"}', ASNAMES='{"-", "a"}')),
 }
 BATCH = 200
 TLC_WORKERS = {"quick": 3, "thorough": 4}
